@@ -19,7 +19,7 @@ use crate::rng::{mix, Rng};
 use crate::watch;
 
 pub fn plan(tier: &str) -> u64 {
-    n_rounds_cases(tier) + n_destroy_cases(tier) + n_spin_cases(tier) + n_nested_cases(tier)
+    n_rounds_cases(tier) + n_destroy_cases(tier) + n_spin_cases(tier) + n_nested_cases(tier) + n_parked_close_cases(tier)
 }
 
 fn n_rounds_cases(tier: &str) -> u64 {
@@ -154,6 +154,120 @@ fn case_close_during_nested_flush(out: &mut CaseOut, seed: u64, idx: u64) {
     }
     let _ = DB::destroy_database(options(&fs, &db_path, memtable));
     out.sample = Some(json!({"family": "close-during-nested-flush", "ctx": ctx, "compaction_parked_in_merge": in_merge, "memtable_rotated_meanwhile": rotated, "nested_flush_reached": in_nested_flush, "files_per_level_at_arming": shape_at_arming, "puts_before_arming": puts_in_phase_0, "picks": d.note_count("compaction.pick"), "rotations": d.note_count("mem.rotate")}));
+}
+
+fn n_parked_close_cases(tier: &str) -> u64 {
+    if tier == "quick" {
+        16
+    } else {
+        128
+    }
+}
+
+/// Close arrives while the background thread is parked in the middle of a piece of work that
+/// touches the directory - building or installing a flush, merging, and in particular *deleting*
+/// the files a finished compaction made obsolete. As long as that thread has work in flight the old
+/// handle is not closed (its `drop` has not returned, its thread will still create or unlink
+/// files), so every open attempted meanwhile must be refused; once the work is released and the
+/// close has returned, an open must succeed and find everything that was acknowledged. The oracle
+/// looks at outcomes only (does the second open succeed?), not at what raindb's hook reports.
+fn case_close_while_worker_parked(out: &mut CaseOut, seed: u64, idx: u64) {
+    use crate::director::COMPACTOR;
+    let mut rng = Rng::new(mix(&[seed, idx], "c17-parked-close"));
+    let d = director();
+    d.reset(rng.next_u64());
+    let scratch = Scratch::new(400_000 + idx);
+    let use_tmpfs = idx % 2 == 0;
+    let tmpfs_holder;
+    let (fs, db_path): (Arc<dyn FileSystem>, String) = if use_tmpfs {
+        tmpfs_holder = Arc::new(TmpFileSystem::new(Some(&scratch.dir)));
+        (tmpfs_holder.clone() as Arc<dyn FileSystem>, "db".to_string())
+    } else {
+        (Arc::new(OsFileSystem::new()), scratch.dir.join("db").to_string_lossy().to_string())
+    };
+    const POINTS: [(&str, u64); 8] = [("gc.delete_one", 2), ("gc.before_delete", 3), ("manifest.before_append", 4), ("gc.delete_one", 9), ("flush.after_build", 3),
+        ("compact.step", 5), ("manifest.after_append", 5), ("gc.before_delete", 6)];
+    let (point, nth) = POINTS[(idx / 2 % POINTS.len() as u64) as usize];
+    let memtable = 1024usize;
+    let ctx = json!({"family": "close-while-the-background-thread-is-parked-mid-work", "filesystem": if use_tmpfs { "TmpFileSystem" } else { "OsFileSystem" }, "parked_at": point, "nth_arrival": nth});
+    let db = match DB::open(options(&fs, &db_path, memtable)) {
+        Ok(db) => db,
+        Err(e) => {
+            out.violate("C17/owner-open-failed-although-nobody-holds-the-database", json!({"ctx": ctx, "error": e.to_string()}));
+            return;
+        }
+    };
+    let mut model: BTreeMap<Vec<u8>, Vec<u8>> = BTreeMap::new();
+    let mut counter = 0u64;
+    let gate = d.arm(COMPACTOR, point, nth);
+    let deadline = std::time::Instant::now() + Duration::from_secs(15);
+    while !d.is_arrived(gate) && std::time::Instant::now() < deadline {
+        watch::tick();
+        // only write while no immutable memtable is pending: such a put never waits for the parked thread
+        if db.verif_probe().has_immutable_memtable {
+            std::thread::sleep(Duration::from_micros(200));
+            continue;
+        }
+        counter += 1;
+        let k = format!("k{:03}", (counter * 17) % 40).into_bytes();
+        let v = format!("v{}-{}", counter, "z".repeat(40)).into_bytes();
+        let _g = watch::enter("put(owner)");
+        if db.put(WriteOptions::default(), k.clone(), v.clone()).is_err() {
+            break;
+        }
+        model.insert(k, v);
+    }
+    let parked = d.wait_arrived(gate, Duration::from_secs(2));
+    let closer = std::thread::Builder::new().name("c17-closer".into()).spawn(move || {
+        set_role(1);
+        let _g = watch::enter("close(owner)");
+        drop(db);
+    }).unwrap();
+    let mut intruded = 0u64;
+    let mut attempts = 0u64;
+    if parked {
+        std::thread::sleep(Duration::from_millis(rng.range(15, 40)));
+        for _ in 0..3 {
+            attempts += 1;
+            let _g = watch::enter("open(intruder)");
+            match DB::open(options(&fs, &db_path, memtable)) {
+                Err(_) => {}
+                Ok(second) => {
+                    intruded += 1;
+                    out.violate(
+                        format!("C17/second-open-succeeded-while-the-old-handle-still-had-background-work-in-flight/{point}"),
+                        json!({"ctx": ctx, "closer_finished": closer.is_finished(), "files": listing(&scratch.dir)}),
+                    );
+                    // let go of it before the old thread continues
+                    let _g2 = watch::enter("close(intruder)");
+                    drop(second);
+                    break;
+                }
+            }
+            std::thread::sleep(Duration::from_millis(5));
+        }
+    }
+    d.release(gate);
+    let _ = closer.join();
+    out.add("closes_while_worker_parked", parked as u64);
+    out.add("opens_attempted_while_worker_parked", attempts);
+    out.add(&format!("parked_close.{point}"), parked as u64);
+    match DB::open(options(&fs, &db_path, memtable)) {
+        Ok(db) => {
+            if intruded == 0 {
+                verify_contents(out, &db, &model, "after-close-while-worker-parked", &ctx);
+            }
+            drop(db);
+        }
+        Err(e) => out.violate("C17/owner-open-failed-although-nobody-holds-the-database", json!({"ctx": ctx, "error": e.to_string(), "files": listing(&scratch.dir)})),
+    }
+    if parked {
+        out.nontrivial(format!("close-while-worker-parked/{point}/{}", if use_tmpfs { "tmpfs" } else { "osfs" }));
+    } else {
+        out.add("parked_close_window_not_reached", 1);
+    }
+    let _ = DB::destroy_database(options(&fs, &db_path, memtable));
+    out.sample = Some(json!({"family": "close-while-worker-parked", "ctx": ctx, "worker_parked": parked, "opens_refused_meanwhile": attempts - intruded, "puts_before": counter}));
 }
 
 fn n_spin_cases(tier: &str) -> u64 {
@@ -616,6 +730,11 @@ fn verify_contents(out: &mut CaseOut, db: &DB, model: &BTreeMap<Vec<u8>, Vec<u8>
 
 pub fn run_case(tier: &str, seed: u64, idx: u64) -> CaseOut {
     let mut out = CaseOut::new();
+    let before_parked_close = n_rounds_cases(tier) + n_destroy_cases(tier) + n_spin_cases(tier) + n_nested_cases(tier);
+    if idx >= before_parked_close {
+        case_close_while_worker_parked(&mut out, seed, idx - before_parked_close);
+        return out;
+    }
     if idx >= n_rounds_cases(tier) + n_destroy_cases(tier) + n_spin_cases(tier) {
         case_close_during_nested_flush(&mut out, seed, idx - n_rounds_cases(tier) - n_destroy_cases(tier) - n_spin_cases(tier));
         return out;
